@@ -2,10 +2,13 @@
 pub mod c01;
 pub mod c02;
 pub mod common;
+pub mod cost;
 pub mod commonview;
 pub mod fixed;
 pub mod hist;
+pub mod json;
 pub mod streams;
+pub mod xbuild;
 
 use crate::worker::W;
 
@@ -25,6 +28,9 @@ pub fn dispatch(w: &mut W) {
         "C12" => hist::run_c12(w),
         "C14" => hist::run_c14(w),
         "C13" => commonview::run_c13(w),
+        "C16" => json::run_c16(w),
+        "C15" => cost::run(w),
+        "C17" => xbuild::run(w),
         other => {
             eprintln!("no worker for property {}", other);
             std::process::exit(2);
